@@ -495,8 +495,10 @@ def gen_dag(rng, pool, n, shape=None, ts=None, hostile=False):
             else:
                 parents = [commits[-1]]
         elif shape == "octopus":
-            if i == n - 1 or rng.random() < 0.15:
-                parents = rng.sample(commits, min(len(commits), rng.choice([2, 3, 5, 8, 12, 31, 64, 70, 130, 300])))
+            if i == n - 1:
+                parents = rng.sample(commits, min(len(commits), rng.choice([2, 12, 31, 64, 70, 130, 300, 400])))
+            elif rng.random() < 0.15:
+                parents = rng.sample(commits, min(len(commits), rng.choice([2, 3, 5, 8, 12, 31, 64])))
             else:
                 parents = [rng.choice(commits)]
         elif shape == "multiroot":
